@@ -7,6 +7,7 @@
 (*                                  reported (unknown type: only the caller is told) |    *)
 (*                                  fatal (the handler failed)                            *)
 (*   fire(b, store, live)           a timer of block b expired and was handled            *)
+(*   self(b, store, live)           block b changed its state by its own activity          *)
 (*   abort(store)                   the simulation was asked to stop                       *)
 (*   stop(kind, store, ts, live)    kind: regular | failed_start                          *)
 (*   restart(src, nowr, exps, restored, outs, entry, fresh, stale_removed, reserved_kept)  *)
@@ -17,16 +18,16 @@ Blocks == {}
 Sync == {}
 PersistentAtStart == {}
 DisableOnError == "always"
-VARIABLES phase, live, store, ts, pers, startOk, now, failed, hist, tid, l
+VARIABLES phase, live, store, ts, pers, startOk, now, failed, dirty, hist, tid, l
 P == INSTANCE Persist
-vars == <<phase, live, store, ts, pers, startOk, now, failed, hist>>
+vars == <<phase, live, store, ts, pers, startOk, now, failed, dirty, hist>>
 H(t) == Traces[t].hdr
 Ev(t) == Traces[t].ev
 B == DOMAIN H(tid).blocks
 TraceInit == /\ tid \in 1..NTraces /\ l = 1 /\ phase = "new"
              /\ live = Traces[tid].hdr.pre /\ store = Traces[tid].hdr.pre /\ ts = Traces[tid].hdr.pre_ts
              /\ pers = {b \in DOMAIN Traces[tid].hdr.blocks : Traces[tid].hdr.blocks[b].persistent}
-             /\ startOk = FALSE /\ now = 0 /\ failed = {} /\ hist = <<>>
+             /\ startOk = FALSE /\ now = 0 /\ failed = {} /\ dirty = {} /\ hist = <<>>
 Rec(st, t) == [store |-> st, ts |-> t]
 (* the output that corresponds to an internal state *)
 OutOf(kind, s) == CASE kind = "timer" -> (IF s.st = 2 THEN 1 ELSE 0)
@@ -39,24 +40,31 @@ Faithful(e) == \A b \in B : (e.live[b].st # -9 /\ b \notin failed) => e.outc[b] 
 InitLine(e) == /\ phase = "new" /\ phase' = "running" /\ startOk' = TRUE /\ Faithful(e)
                /\ \A b \in B : e.store[b] = (IF b \in pers THEN e.live[b] ELSE store[b])  \* saved after initialisation
                /\ store' = e.store /\ live' = e.live /\ hist' = Append(hist, Rec(e.store, ts))
-               /\ UNCHANGED <<ts, pers, now, failed>>
+               /\ UNCHANGED <<ts, pers, now, failed, dirty>>
 Handled(e) == /\ phase = "running" /\ Faithful(e)
               /\ \A b \in B : e.store[b] = (IF b = e.b /\ b \in pers /\ H(tid).blocks[b].sync THEN e.live[b] ELSE store[b])
               /\ store' = e.store /\ live' = e.live /\ hist' = Append(hist, Rec(e.store, ts))
+              /\ dirty' = dirty \ {e.b}
               /\ UNCHANGED <<phase, ts, pers, startOk, now, failed>>
 EventLine(e) ==
     \/ e.outcome = "ok" /\ Handled(e)
     \/ /\ e.outcome = "reported" /\ phase = "running"            \* nothing happened, nothing is written
        /\ e.store = store /\ e.live = live
-       /\ hist' = Append(hist, Rec(e.store, ts)) /\ UNCHANGED <<phase, live, store, ts, pers, startOk, now, failed>>
+       /\ hist' = Append(hist, Rec(e.store, ts)) /\ UNCHANGED <<phase, live, store, ts, pers, startOk, now, failed, dirty>>
     \/ /\ e.outcome = "fatal" /\ phase \in {"running", "failing"} /\ phase' = "failing"
        /\ e.store = store                                        \* no save after a handler error
        /\ pers' = pers \ {e.b} /\ failed' = failed \cup {e.b}
        /\ live' = e.live /\ hist' = Append(hist, Rec(e.store, ts))
-       /\ UNCHANGED <<store, ts, startOk, now>>
+       /\ UNCHANGED <<store, ts, startOk, now, dirty>>
+(* the block changed its state by itself (not in an event handler): nothing is written;  *)
+(* the regular stop will save it                                                          *)
+SelfLine(e) == /\ phase = "running" /\ e.store = store /\ Faithful(e)
+               /\ \A b \in B : b # e.b => e.live[b] = live[b]
+               /\ live' = e.live /\ dirty' = dirty \cup {e.b}
+               /\ hist' = Append(hist, Rec(e.store, ts)) /\ UNCHANGED <<phase, store, ts, pers, startOk, now, failed>>
 (* the simulation was asked to stop (the clean-up has not run yet) *)
 AbortLine(e) == /\ phase = "running" /\ phase' = "failing" /\ e.store = store
-                /\ hist' = Append(hist, Rec(e.store, ts)) /\ UNCHANGED <<live, store, ts, pers, startOk, now, failed>>
+                /\ hist' = Append(hist, Rec(e.store, ts)) /\ UNCHANGED <<live, store, ts, pers, startOk, now, failed, dirty>>
 StopLine(e) ==
     /\ phase' = "stopped"
     /\ IF e.kind = "failed_start"
@@ -67,7 +75,7 @@ StopLine(e) ==
             /\ e.ts = e.t                                                            \* + the stop time stamp
             /\ store' = e.store /\ ts' = e.ts
     /\ hist' = Append(hist, Rec(e.store, e.ts)) /\ live' = e.live
-    /\ UNCHANGED <<pers, startOk, now, failed>>
+    /\ UNCHANGED <<pers, startOk, now, failed, dirty>>
 RestartLine(e) ==
     /\ e.src \in DOMAIN hist
     /\ LET snap == hist[e.src] IN
@@ -78,12 +86,13 @@ RestartLine(e) ==
                /\ e.outs[b] = OutOf(H(tid).blocks[b].kind, snap.store[b])   \* the corresponding output
                /\ e.entry[b] = 0                                   \* no entry actions again
     /\ e.stale_removed /\ e.reserved_kept
-    /\ hist' = Append(hist, Rec(store, ts)) /\ UNCHANGED <<phase, live, store, ts, pers, startOk, now, failed>>
+    /\ hist' = Append(hist, Rec(store, ts)) /\ UNCHANGED <<phase, live, store, ts, pers, startOk, now, failed, dirty>>
 Step == /\ l <= Len(Ev(tid))
         /\ LET e == Ev(tid)[l] IN
              \/ e.ev = "init" /\ InitLine(e)
              \/ e.ev = "event" /\ EventLine(e)
              \/ e.ev = "fire" /\ Handled(e)
+             \/ e.ev = "self" /\ SelfLine(e)
              \/ e.ev = "abort" /\ AbortLine(e)
              \/ e.ev = "stop" /\ StopLine(e)
              \/ e.ev = "restart" /\ RestartLine(e)
